@@ -30,6 +30,7 @@ type config struct {
 	Follow   []string          `json:"follow"`
 	Extra    []string          `json:"extra"`
 	AllOf    []string          `json:"allof"` // dump every function of these packages
+	Optional []string          `json:"optional"` // like extra, silently skipped when absent from the loaded program
 }
 
 type jVal map[string]interface{}
@@ -582,6 +583,11 @@ func main() {
 			continue
 		}
 		d.enqueue(f)
+	}
+	for _, n := range cfg.Optional {
+		if f, ok := byName[n]; ok {
+			d.enqueue(f)
+		}
 	}
 	for f := range all {
 		if f.Pkg != nil {
